@@ -390,3 +390,42 @@ CONTRACTS = [
     Contract('cpu.trap_kwargs', ['C07'], ['qvm.cpu:QvmCpu._trap', 'qvm.cpu:QvmCpu.trap'], body_trap_kwargs,
              trusted=['syntactic cross-function check over the AST of qvm/cpu.py, qvm/machine.py, qvm/cell.py (no solver)']),
 ]
+
+
+# ------------------------------------------------------------------ ON ERROR / RESUME statements (generators)
+
+def body_on_error_stmt(h, kind):
+    """ON ERROR GOTO label | GOTO 0 | RESUME NEXT: one errhand instruction whose operand is the handler's label, the
+    reserved 0 (default reporting) or the reserved 1 (resume next); the numeric label 0 is never taken for a line"""
+    from qbee import stmt, qvm_codegen
+    from qbee.program import LineNo
+    node = {'label': lambda: stmt.OnErrorStmt(False, 'handler'), 'lineno': lambda: stmt.OnErrorStmt(False, 100),
+            'off': lambda: stmt.OnErrorStmt(False, 0), 'next': lambda: stmt.OnErrorStmt(True, None)}[kind]()
+    code = qvm_codegen.QvmCode()
+    out = h.call(qvm_codegen.gen_on_error, node, code, None)
+    if not out.returned:
+        h.prove('generator.no_exception', False, detail=repr(out))
+        return
+    ins = [i.final for i in code._instrs]
+    want = {'label': ('errhand', 'handler'), 'lineno': ('errhand', LineNo.get_canonical_name(100)),
+            'off': ('errhand', 0), 'next': ('errhand', 1)}[kind]
+    h.prove('one_errhand_with_the_right_operand', ins == [want], detail=repr(ins))
+
+
+def body_resume_stmt(h, nxt):
+    from qbee import stmt, qvm_codegen
+    code = qvm_codegen.QvmCode()
+    out = h.call(qvm_codegen.gen_resume_stmt, stmt.ResumeStmt(nxt), code, None)
+    if not out.returned:
+        h.prove('generator.no_exception', False, detail=repr(out))
+        return
+    ins = [i.final for i in code._instrs]
+    h.prove('resume_is_errres_and_resume_next_is_errresn', ins == [('errresn',) if nxt else ('errres',)], detail=repr(ins))
+
+
+CONTRACTS += [
+    Contract('stmt.on_error', ['C10'], ['qbee.qvm_codegen:gen_on_error'], body_on_error_stmt,
+             cases=[('label',), ('lineno',), ('off',), ('next',)],
+             doc='with cpu.errhand (machine side) and asm.jump / asm.errhand_reserved (operand encoding)'),
+    Contract('stmt.resume', ['C10'], ['qbee.qvm_codegen:gen_resume_stmt'], body_resume_stmt, cases=[(False,), (True,)]),
+]
